@@ -169,6 +169,27 @@ def materialise(src, faults, rng, out_base, nested=False):
         raw = raw[: start_dir + 7]
     elif "truncated-end-record" in kinds:
         raw = raw[:-5]
+    if "zip-feature" in kinds and not (kinds & {"truncated-0", "truncated-local-header", "truncated-in-member", "truncated-central-dir", "truncated-end-record"}):
+        # an intact zip that asks for something Python's zipfile does not do: a "version needed to extract" above 6.3 (refused when
+        # the directory is read), an unknown compression method, an encrypted member or "compressed patched data" (refused when
+        # the member is read).  Central directory record: PK\1\2, version needed at +6, flags at +8, method at +10.
+        recs = []
+        p = start_dir
+        while raw[p:p + 4] == b"PK\x01\x02":
+            n, m, c = struct.unpack("<HHH", raw[p + 28:p + 34])
+            recs.append(p)
+            p += 46 + n + m + c
+        if recs:
+            rec = recs[rng.randrange(len(recs))] if rng.random() < 0.5 else recs[0]
+            v = rng.randrange(4)
+            if v == 0:
+                raw[rec + 6] = rng.choice([64, 84, 148, 255])
+            elif v == 1:
+                raw[rec + 10:rec + 12] = struct.pack("<H", rng.choice([1, 6, 99]))
+            elif v == 2:
+                raw[rec + 8] |= 0x01
+            else:
+                raw[rec + 8] |= 0x20
     if "missing" in kinds:
         return path + ".absent", None
     with open(path, "wb") as fh:
